@@ -81,11 +81,17 @@ class C18(Plugin):
 
     def impl(self, case):
         from html5lib.filters.alphabeticalattributes import Filter
-        return enc_tokens(list(Filter([to_py(t) for t in case["toks"]])))
+        f = Filter([to_py(t) for t in case["toks"]])
+        first = enc_tokens(list(f))
+        # a filter over a re-iterable source can be iterated again: the second pass must give the same tokens
+        self._second = enc_tokens(list(f))
+        return first
 
     def oracle(self, case, out):
         # the property, evaluated directly on the implementation's output
         v = []
+        if getattr(self, "_second", out) != out:
+            return [("second-iteration-differs", "first pass %d tokens, second pass %d" % (len(out), len(self._second)))]
         if len(out) != len(case["toks"]):
             return [("token-count", "")]
         for tin, tout in zip(enc_tokens([to_py(t) for t in case["toks"]]), out):
